@@ -594,7 +594,27 @@ func c06Writer(c *eng.Ctx) {
 		if call == nil || !call.Call.IsInvoke() || call.Call.Method.Name() != "Sync" {
 			return
 		}
-		// receiver is extract#0 of typeassert,ok l.w
+		// receiver: a field of the Writer that New filled with the sink viewed
+		// through an interface having Sync (the assertion hoisted into New) ...
+		if fr, base, isF := eng.LoadedField(call.Call.Value); isF && eng.IsNamed(fr.Owner, "audit", "Writer") && eng.Origin(base) == syn.Params[0] {
+			for _, a := range eng.FieldAccesses(nw) {
+				if a.Kind != "store" || a.Field.Name != fr.Name || !eng.IsNamed(a.Field.Owner, "audit", "Writer") {
+					continue
+				}
+				st := a.In.(*ssa.Store)
+				v := eng.Origin(st.Val)
+				if ex, isEx := v.(*ssa.Extract); isEx && ex.Index == 0 {
+					v = ex.Tuple
+				}
+				if ta, isTA := v.(*ssa.TypeAssert); isTA && eng.Origin(ta.X) == ssa.Value(nw.Params[0]) {
+					if iface, _ := ta.AssertedType.Underlying().(*types.Interface); iface != nil && iface.NumMethods() == 1 && iface.Method(0).Name() == "Sync" {
+						okSync = true
+					}
+				}
+			}
+			return
+		}
+		// ... or extract#0 of typeassert,ok l.w
 		ex, ok := call.Call.Value.(*ssa.Extract)
 		if !ok {
 			return
@@ -648,6 +668,10 @@ func c06Writer(c *eng.Ctx) {
 		wv := fields[auditField(p, "w")]
 		encCall, _ := eng.TupleCall(fields[auditField(p, "enc")])
 		if wv != nil && encCall != nil && eng.CalleeIs(&encCall.Call, "encoding/json", "NewEncoder") && eng.Same(encCall.Call.Args[0], wv) && eng.Origin(wv) == nw.Params[0] {
+			okNew = true
+		} else if wv == nil && okSync && encCall != nil && eng.CalleeIs(&encCall.Call, "encoding/json", "NewEncoder") && eng.Origin(encCall.Call.Args[0]) == ssa.Value(nw.Params[0]) {
+			// the sink itself is not kept: the encoder is over New's argument,
+			// and what Sync syncs is that same argument (checked above)
 			okNew = true
 		} else {
 			detail = "w = " + eng.ValStr(wv) + ", enc = " + eng.ValStr(fields[auditField(p, "enc")])
